@@ -1466,8 +1466,9 @@ package main
 
 //@ func scDefVar
 //@   trusted
-//@   modifies maps
+//@   modifies maps glob:vardefs
 //@   panics may
+//@   ensures logged: glob(vardefs) == def_var(old(glob(vardefs)), s, name, v)
 //@   note abstract: defines a variable in the innermost dictionary of the scope
 
 //@ func parseLetOneVarDef
@@ -1650,3 +1651,80 @@ package main
 //@   ensures grammar: Rfields(ps, result.E0, result.E1)
 //@   ensures ends-at-brace: result.E0.tkz.current.ttype == New_TokenType_RBRACE
 //@   ensures live: live(result.E0) && samebuf(result.E0, ps)
+
+// ---------------------------------------------------------------------------------------------
+// C03: what a type definition registers (abstract registration logs, /verif/specs/decl.spec).
+// ---------------------------------------------------------------------------------------------
+
+//@ func scRegisterRecFac
+//@   trusted
+//@   modifies maps glob:typeregs
+//@   panics may
+//@   ensures logged: glob(typeregs) == reg_rec(old(glob(typeregs)), s, name)
+
+//@ func scRegisterTypeFac
+//@   trusted
+//@   modifies maps glob:typeregs
+//@   panics may
+//@   ensures logged: glob(typeregs) == reg_type(old(glob(typeregs)), s, name)
+
+//@ func scRegisterVarFac
+//@   trusted
+//@   modifies maps glob:vardefs
+//@   panics may
+//@   ensures logged: glob(vardefs) == reg_varfac(old(glob(vardefs)), s, name)
+
+//@ func udToUniFac
+//@   trusted
+//@   panics never
+//@ func rdToRecFac
+//@   trusted
+//@   panics never
+//@ func tryRecFacToRecType
+//@   trusted
+//@   modifies maps
+//@   panics may
+//@ func GenUnionFType
+//@   trusted
+//@   modifies maps
+//@   panics may
+
+// a constructor reference resolves to the package variable New_U_C exactly when the emitter declares one
+// (same rule csIsVar), and to a function factory otherwise; both under the case name
+//@ func csRegisterCtor
+//@   props C03
+//@   modifies maps glob:vardefs
+//@   panics may
+//@   ensures var-form: cas.Ftype == New_FType_FUnit && len(ud.Tparams) == 0 ==> glob(vardefs) == def_var(old(glob(vardefs)), sc, cas.Name, mk_main_Var("New_" + ud.Name + "_" + cas.Name, FType_FUnion(mk_main_UnionType(ud.Name, zero_ftypes()))))
+//@   ensures func-form: !(cas.Ftype == New_FType_FUnit && len(ud.Tparams) == 0) ==> glob(vardefs) == reg_varfac(old(glob(vardefs)), sc, cas.Name)
+
+//@ func udRegisterCsCtors
+//@   props C03
+//@   modifies maps glob:vardefs
+//@   panics may
+//@   ensures all-cases-in-order: glob(vardefs) == ctor_log(old(glob(vardefs)), sc, ud, len(ud.Cases))
+//@   inline-call slice.Iter#0
+//@   loop slice.Iter#0/0 index i:
+//@     invariant log: glob(vardefs) == ctor_log(old(glob(vardefs)), sc, ud, i)
+
+// a definition inside a running `type ... and ...` group is registered in the scope at once (so that later
+// members of the group can refer to it, also with type arguments)
+//@ func psRegRecDefToTDCtx
+//@   props C03
+//@   modifies maps glob:typeregs
+//@   panics may
+//@   ensures registered-in-scope: glob(typeregs) == reg_rec(old(glob(typeregs)), ps.scope, rd.Name)
+
+//@ func psRegUdToTDCtx
+//@   props C03
+//@   modifies maps glob:typeregs glob:vardefs
+//@   panics may
+//@   ensures type-registered-in-scope: glob(typeregs) == reg_type(old(glob(typeregs)), ps.scope, ud.Name)
+//@   ensures constructors-registered: glob(vardefs) == ctor_log(old(glob(vardefs)), ps.scope, ud, len(ud.Cases))
+
+//@ func scRegDefStmtType
+//@   props C03
+//@   modifies maps glob:typeregs glob:vardefs
+//@   panics may
+//@   ensures record: is(DefStmt_DRecordDef, df) ==> glob(typeregs) == reg_rec(old(glob(typeregs)), sc, DefStmt_DRecordDef_Value(df).Name) && glob(vardefs) == old(glob(vardefs))
+//@   ensures union: is(DefStmt_DUnionDef, df) ==> glob(typeregs) == reg_type(old(glob(typeregs)), sc, DefStmt_DUnionDef_Value(df).Name) && glob(vardefs) == ctor_log(old(glob(vardefs)), sc, DefStmt_DUnionDef_Value(df), len(DefStmt_DUnionDef_Value(df).Cases))
